@@ -17,7 +17,7 @@ def infer_pattern(tp: AnyType, default_conversion: DefaultConversion) -> Pattern
     else:
         if (
             len(prop_schema.get("patternProperties", {})) == 1
-            and "additionalProperties" not in prop_schema
+            and prop_schema.get("additionalProperties", False) is False
         ):
             return next(iter(prop_schema["patternProperties"]))
     raise TypeError("Cannot inferred pattern from type schema") from None
